@@ -11,6 +11,7 @@ import JanetModel.Value.F64
 import JanetModel.Value.Struct
 import JanetModel.Value.StructLemmas
 import JanetModel.Value.SymCacheLemmas
+import JanetModel.Value.SymGenLemmas
 import JanetModel.Value.RobinPerm
 import JanetModel.Value.RobinDup
 import JanetModel.Value.LayoutTests
@@ -193,6 +194,50 @@ theorem symcache_same_symbol (ops1 ops2 : List Op) (c c1 c2 c3 : Cache) (b b' : 
 /-- non-vacuity: a history with a tombstone on the probe path of a later lookup runs without hitting the assertion -/
 example : (run init [.intern [97], .intern [98], .intern [99], .sweep [98], .intern [99], .intern [98], .sweep [97]]).isSome = true := by
   decide +kernel
+
+/-! #### `janet_symbol_gen` (session 4; model `Value/SymGen.lean`)
+
+`gensym` probes the cache for the counter name and advances the counter for as long as the probe finds a symbol.  The fact
+that the probe is REPEATED (not done once or twice) is what makes the new symbol's bytes different from those of every live
+symbol; it is regenerated from the source (`Gen.Value.gensymProbeLoop`, structure of the loops of `janet_symbol_gen`). -/
+
+/-- tie: in the source the probe of the gensym counter sits in a loop that repeats while the name is found -/
+theorem gensym_probe_loop_tie : JanetModel.Gen.Value.gensymProbeLoop = true := by decide
+
+/-- **gensym returns a symbol that is `=` to no live symbol**: after ANY history of interns, sweeps and gensyms from
+    `janet_symcache_init`, a `janet_symbol_gen` call (whatever number of counter names it has to skip) settles on bytes that
+    no cached symbol has, puts the new symbol at a fresh address, and leaves every other symbol at its address -/
+theorem gensym_fresh (fuel : Nat) (ops : List OpG) (s : GState) (c' : Cache) (ctr' : List UInt8) (p : Nat)
+    (h : runG fuel ginit ops = some s) (hg : gensym fuel s.cache s.counter = some (c', ctr', p)) :
+    (∀ q, ¬ Live s.cache.slots q ctr') ∧ Live c'.slots p ctr' ∧ (∀ q b, Live s.cache.slots q b → q ≠ p) ∧
+    (∀ q x, Live c'.slots q x ↔ (Live s.cache.slots q x ∨ (q = p ∧ x = ctr'))) := by
+  have hinv := (runG_as_run fuel ops ginit s init_invC h).1
+  obtain ⟨_, _, _, hfresh, hp, _, hl⟩ := gensym_spec fuel s.cache s.counter c' ctr' p hinv hg
+  refine ⟨hfresh, (hl p ctr').mpr (Or.inr ⟨rfl, rfl⟩), fun q b hq e => ?_, hl⟩
+  have := hinv.fresh q b hq
+  omega
+
+/-- **`symcache_unique` for histories with gensym**: no two cached symbols with the same bytes, one address names one
+    symbol, a cached symbol is found by a lookup of its bytes — after any history of `janet_symbol`, sweeps and
+    `janet_symbol_gen` (every such history is realised by a plain one: `runG_as_run`) -/
+theorem symcache_unique_gensym (fuel : Nat) (ops : List OpG) (s : GState) (h : runG fuel ginit ops = some s) :
+    (∀ p q b, Live s.cache.slots p b → Live s.cache.slots q b → p = q) ∧
+    (∀ p b b', Live s.cache.slots p b → Live s.cache.slots p b' → b = b') ∧
+    (∀ p b, Live s.cache.slots p b → ∃ c', intern s.cache b = some (c', p)) := by
+  obtain ⟨_, ops', ho⟩ := runG_as_run fuel ops ginit s init_invC h
+  have := symcache_unique ops' s.cache ho
+  exact ⟨this.1, this.2.1, this.2.2.1⟩
+
+/-- non-vacuity: gensym, the next counter name interned by other means, two more gensyms (the second skips TWO live names:
+    its own previous result and the pre-interned one), a sweep and another gensym -/
+example : ((runG 8 ginit [.gensym, .intern [95, 48, 48, 48, 48, 48, 50], .gensym, .gensym, .sweep [95, 48, 48, 48, 48, 48, 49], .gensym]).map
+    (·.counter)) = some [95, 48, 48, 48, 48, 48, 52] := by
+  decide +kernel
+
+/-- `inc_gensym` carries: `_00000Z` → `_000010`, `_000009` → `_00000a`, `_00000z` → `_00000A`, `_ZZZZZZ` wraps to `_000000` -/
+example : incGensym [95, 48, 48, 48, 48, 48, 90] = [95, 48, 48, 48, 48, 49, 48] ∧ incGensym [95, 48, 48, 48, 48, 48, 57] = [95, 48, 48, 48, 48, 48, 97] ∧
+    incGensym [95, 48, 48, 48, 48, 48, 122] = [95, 48, 48, 48, 48, 48, 65] ∧ incGensym [95, 90, 90, 90, 90, 90, 90] = [95, 48, 48, 48, 48, 48, 48] := by
+  decide
 
 end symcache
 
